@@ -206,11 +206,11 @@ impl<T> NFA<T> {
     }
 
     /// For `a` regular expression it is equivalent to `a?`
-    pub fn optional(mut self) -> Self {
-        if let Some(start) = self.states.get_mut(&self.start) {
-            start.epsilons.insert(self.stop);
-        }
-        self
+    pub fn optional(self) -> Self {
+        // Adding epsilon edge from start to stop is only correct when start has no
+        // incoming and stop has no outgoing edges, which is not the case for `some`
+        // or `sequence` that starts/ends with `some`. Choice allocates fresh states.
+        Self::choice([self, Self::empty()])
     }
 
     /// For `a` regular expression it is equivalent to `a*`
